@@ -212,7 +212,7 @@ impl Property for C16S {
             });
         }
         blocks.push(Block::Delay(4));
-        let guest = GuestSpec { blocks, handlers: vec![], code_dram: rng.chance(1, 3), stack_dram: false, data_dram: false, vec_top: 0, sub_delay: 1, init_ccr: None, stack_off: 0 };
+        let guest = GuestSpec { blocks, handlers: vec![], code_dram: rng.chance(1, 3), stack_dram: false, data_dram: false, vec_top: 0, sub_delay: 1, init_ccr: None, stack_off: 0, exit_style: 0 };
         let est = super::c10::estimate_iters(&guest);
         let mut events = Vec::new();
         for _ in 0..rng.range(1, 12) {
@@ -233,7 +233,7 @@ impl Property for C16S {
             events.push(Event { trig: Trigger::Iter(k + 1 + rng.below(3)), act: Action::Lines(vec![format!("ioport:{:x}:{:x}", *rng.pick(&ports), rng.u8())]) });
             events.push(Event { trig: Trigger::Iter(k + 5 + rng.below(4)), act: Action::Lines(vec!["cmd:start".into()]) });
         }
-        let cfg = SysCfg { wait_start: false, clock: gen_clock_model(rng), clock_seed: rng.next_u64(), step_cap: est * 4 + 2000, print_msgs: rng.chance(1, 8) };
+        let cfg = SysCfg { wait_start: false, clock: gen_clock_model(rng), clock_seed: rng.next_u64(), step_cap: est * 4 + 2000, print_msgs: rng.chance(1, 8), print_opcode: false };
         Scn { guest, events, cfg }
     }
 
